@@ -42,6 +42,8 @@ def no_text(e):
 
 
 def is_float(s, where):
+    if s in ("INF", "+INF", "-INF", "NAN"):
+        return
     if FLOAT.match(s) and not NONFINITE_BAD.match(s):
         if s in ("NaN",):
             raise Bad("float-spelling", "%s: NaN is written `%s`, the document requires `NAN`" % (where, s))
@@ -113,7 +115,7 @@ def check_property(e, referents, shared_keys, out_refs):
     elif t == "Color3uint8":
         is_int(text_of(e), 0, 2 ** 32 - 1, w)
     elif t in ("ColorSequence", "NumberSequence", "NumberRange"):
-        parts = [p for p in text_of(e).split(" ") if p != ""]
+        parts = [p for p in re.split(r"[ \t\r\n]+", text_of(e)) if p != ""]   # indentation of an empty element is not content
         per = {"ColorSequence": 5, "NumberSequence": 3, "NumberRange": 2}[t]
         if len(parts) % per != 0 or (t == "NumberRange" and len(parts) != 2):
             raise Bad("layout", "%s: %d numbers" % (w, len(parts)))
@@ -227,6 +229,8 @@ def source_tree(case_lines):
 
 def check(text, case_lines):
     res = []
+    if any(l.startswith("roots") for l in case_lines) and source_tree(case_lines) is None:
+        return []                      # the same instance selected twice / a root below a root: outside the quantifier
     try:
         root = ET.fromstring(text)
     except ET.ParseError as ex:
@@ -294,6 +298,8 @@ def check(text, case_lines):
                 res.append(("dangling-ref", "%s names referent `%s`, which no Item of the document carries (a reference to an instance that is not written should be `null`)" % (w, r[:40])))
                 break
         src = source_tree(case_lines)
+        if src is None and any(l.startswith("roots") for l in case_lines):
+            return []                  # the same instance selected twice / a root below a root: outside the quantifier
         if src is not None:
             got = [(c, n) for c, n in tree]
             if [c for c, _ in got] != [c for c, _ in src]:
